@@ -46,7 +46,10 @@ FLOORS = {'ref:reverse-axis': (0.05, 'ref:path'), 'ref:positional': (0.10, 'ref:
           'ref:ns-wildcard': (0.12, 'ref:path'), 'lxml:ns-wildcard': (0.12, 'lxml:path'),
           'ref:ns-wildcard-hit-in-prefix-uri-doc': (0.015, 'ref:path'), 'hist:result-changed-by-edit': (0.04, 'hist:path'),
           'lxml:elem-root/doc-siblings-after': (0.08, 'lxml:path'), 'lxml:doc-root/doc-siblings-after': (0.08, 'lxml:path'),
-          'ref:et-xml-in-namespaces': (0.10, 'ref:path'), 'ref:namespace-axis': (0.08, 'ref:path'), 'ref:paren-reverse-step-2+candidates-at-positional': (0.008, 'ref:path')}
+          'ref:et-xml-in-namespaces': (0.10, 'ref:path'), 'ref:namespace-axis': (0.08, 'ref:path'),
+          'ref:raw-context-item': (0.12, 'ref:path'), 'ref:leaves-comment-or-pi-context-raw': (0.008, 'ref:path'),
+          'lxml:leaves-comment-or-pi-context-raw': (0.008, 'lxml:path'), 'ref:non-integer-numeric-predicate': (0.08, 'ref:path'),
+          'lxml:non-integer-numeric-predicate': (0.08, 'lxml:path'), 'ref:abs|rel-union-from-inner-context': (0.015, 'ref:path'), 'ref:paren-reverse-step-2+candidates-at-positional': (0.008, 'ref:path')}
 
 # r -> urn:pp: urn:p (prefix p) is a proper string prefix of it, so p:* / @p:* must not match names in urn:pp
 NS = dict(gx.PATH_NAMESPACES, r='urn:pp')
@@ -79,11 +82,21 @@ _item = st.one_of(st.none(), st.integers(0, 400))
 def _path_case(draw, max_steps):
     ast = draw(path_asts(max_steps))
     item = draw(_item)
+    prefer = None
     # a parenthesised reverse-axis step evaluated from the root selects nothing: give it a context inside the tree
     if item is None and ast[0] == 'fpath' and ast[1][0] == 'path' and ast[1][1] == 0 and len(ast[1][2]) == 1 \
             and ast[1][2][0][1] in xdm.REVERSE and draw(st.integers(0, 7)) > 0:
         item = draw(st.integers(0, 400))
-    return {'ast': ast, 'item': item}
+    # a relative path that leaves its context node: context items of every kind, comments and PIs in particular
+    if ast[0] == 'path' and ast[1] == 0 and ast[2] and ast[2][0][1] in _LEAVING_AXES:
+        prefer = draw(st.sampled_from([None, 'misc', 'misc', 'misc', 'element', 'text', 'attr']))
+        if prefer and item is None:
+            item = draw(st.integers(0, 400))
+    elif _abs_rel_union(ast) and draw(st.integers(0, 4)) > 0:
+        prefer = 'element'
+        item = draw(st.integers(0, 400)) if item is None else item
+    # raw: the context item is passed as the tree's own etree object where one exists
+    return {'ast': ast, 'item': item, 'prefer': prefer, 'raw': draw(st.booleans())}
 
 
 def _cases(max_elems, n_paths, max_steps, cfg=_cfg):
@@ -162,25 +175,43 @@ class Impl:
         ref.renumber()
         return ok
 
-    def ref_ctx(self, item):
+    _PREFER = {'misc': ('comment', 'pi'), 'element': ('element',), 'text': ('text',), 'attr': ('attribute', 'namespace')}
+
+    def ref_ctx(self, item, prefer=None):
         ref = self.ref
         if item is None:
             return ref.root if self.dummy else ref.top
+        if prefer:
+            cands = [n for n in ref.nodes if n.kind in self._PREFER[prefer] and not (prefer == 'element' and n is ref.root)]
+            if cands:
+                return cands[item % len(cands)]
         n = ref.nodes[item % len(ref.nodes)]
         if self.dummy and n.kind == 'document':
             return ref.root
         return n
 
+    def raw_object(self, rctx):
+        """the caller's own etree object for a reference node, where one exists (element, comment, PI, the ElementTree)"""
+        if rctx.kind == 'document':
+            return self.b.tree if self.cfg['rootkind'] == 'doc' and not self.dummy else None
+        if rctx.kind not in ('element', 'comment', 'pi'):
+            return None
+        a = rctx.addr if self.ref.top.kind == 'document' else (self.b.n_pre,) + rctx.addr
+        return self.b.by_addr.get(a)
+
     def expected(self, ast, rctx):
         nodes, info = self.ev.evaluate(ast, rctx)
         return [self.conv(n.addr) for n in nodes if not (self.dummy and n.kind == 'document')], info, nodes
 
-    def run(self, version, text, rctx):
-        """-> list of addresses | ('error', code) | ('escape', bucket, repr)"""
+    def run(self, version, text, rctx, raw=False):
+        """-> list of addresses | ('error', code) | ('escape', bucket, repr).  raw: the context item is given as the
+        tree's own etree object (as callers of select(root, path, item=...) do) instead of an XPath node."""
         from elementpath import XPathContext, ElementPathError
         try:
             tok = parser(version).parse(text)
-            item = xdm.ep_find(self.top, self.conv(rctx.addr))
+            item = self.raw_object(rctx) if raw else None
+            if item is None:
+                item = xdm.ep_find(self.top, self.conv(rctx.addr))
             ctx = XPathContext(self.top, namespaces=dict(self.nsarg), item=item, fragment=self.cfg['fragment'])
             res = list(tok.select(ctx))
         except ElementPathError as e:
@@ -245,6 +276,8 @@ def _pred_kinds(preds):
     def walk(p):
         if p[0] in ('num', 'pos', 'last', 'lastminus'):
             ks.add('positional')
+        elif p[0] in ('dec', 'div', 'lastdiv', 'lastminusdec'):
+            ks.add('positional-non-integer-number')
         elif p[0] in ('exists', 'cmp', 'count'):
             ks.add(p[0])
         elif p[0] == 'not':
@@ -419,13 +452,22 @@ def judge_ref(case, rec: Recorder | None = None) -> list[Disc]:
     for pc in case['paths']:
         ast = pc['ast']
         text = render(ast)
-        rctx = im.ref_ctx(pc['item'])
+        rctx = im.ref_ctx(pc['item'], pc.get('prefer'))
+        raw = bool(pc.get('raw')) and im.raw_object(rctx) is not None
         exp, info, nodes = im.expected(ast, rctx)
         classes = ['ref:path', f'ref:{be}', f'ref:top-{topkind}']
         if be == 'lxml':
             classes.append(f'ref:lxml-{cfg["rootkind"]}-root/{_misc_class(spec)}')
         elif cfg.get('nsxml'):
             classes.append('ref:et-xml-in-namespaces')
+        if raw:
+            classes.append('ref:raw-context-item')
+        if rctx.kind in ('comment', 'pi') and ast[0] == 'path' and ast[1] == 0 and ast[2] and ast[2][0][1] in _LEAVING_AXES:
+            classes.append('ref:leaves-comment-or-pi-context' + ('-raw' if raw else ''))
+        if any(p_[0] in ('dec', 'div', 'lastdiv', 'lastminusdec') for p_ in _all_preds(ast)):
+            classes.append('ref:non-integer-numeric-predicate')
+        if _abs_rel_union(ast) and rctx is not im.ref.top and rctx is not im.ref.root:
+            classes.append('ref:abs|rel-union-from-inner-context')
         if any(st_[1] == 'namespace' for st_ in xdm.iter_steps(ast)):
             classes.append('ref:namespace-axis')
             if be == 'et' and cfg.get('nsxml'):
@@ -438,7 +480,7 @@ def judge_ref(case, rec: Recorder | None = None) -> list[Disc]:
             # element-topped tree: "/" alone is undefined (fragment) or the hidden implicit document (Element root)
             verdict = False
             classes.append('ref:skip-bare-root-in-fragment')
-        got = {v: im.run(v, text, rctx) for v in VERSIONS}
+        got = {v: im.run(v, text, rctx, raw) for v in VERSIONS}
         g1 = got['1.0']
         absolute_in_fragment = im.tc['top'] == 'element' and not im.dummy and _has_absolute(ast)
 
@@ -457,7 +499,8 @@ def judge_ref(case, rec: Recorder | None = None) -> list[Disc]:
                 elif isinstance(g1, tuple) and _parse_fails('1.0', text):
                     discs.append(Disc(f'C01/ref/parse-error/1.0/{g1[1]}/{error_class(ast, "1.0")}', exp, g1, detail()))
                 else:
-                    cu = culprit(ast, rctx, exp_fn, lambda a, c: im.run('1.0', render(a), c), im.ref, ctx_ok)
+                    # (the raw-object form of the context item only where the sub-expression starts from that very node)
+                    cu = culprit(ast, rctx, exp_fn, lambda a, c: im.run('1.0', render(a), c, raw and c is rctx), im.ref, ctx_ok)
                     discs.append(Disc(f'C01/ref/{cu}', exp, g1, detail()))
         # versions metamorphic (independent of the reference)
         for v in VERSIONS[1:]:
@@ -512,6 +555,46 @@ def _kind(exp, got):
     if isinstance(exp, tuple):
         return _tag(exp) + '-expected'
     return diff_kind(exp, got)
+
+
+_LEAVING_AXES = ('parent', 'ancestor', 'ancestor-or-self', 'following-sibling', 'preceding-sibling', 'following', 'preceding')
+
+
+def _all_preds(ast):
+    """every predicate (also nested ones) of an expression"""
+    k = ast[0]
+    if k == 'union':
+        for x in ast[1]:
+            yield from _all_preds(x)
+        return
+    preds = []
+    if k == 'path':
+        steps = ast[2]
+    else:
+        yield from _all_preds(ast[1])
+        preds, steps = list(ast[2]), ast[3]
+    for st_ in steps:
+        preds.extend(st_[3])
+    stack = list(preds)
+    while stack:
+        p = stack.pop()
+        yield p
+        if p[0] == 'not':
+            stack.append(p[1])
+        elif p[0] in ('and', 'or'):
+            stack.extend([p[1], p[2]])
+        elif p[0] in ('exists', 'cmp', 'count'):
+            yield from _all_preds(p[1])
+
+
+def _abs_rel_union(ast):
+    """contains a union with an absolute and a relative operand"""
+    if ast[0] == 'union':
+        kinds = {bool(x[1]) for x in ast[1] if x[0] == 'path'}
+        return kinds == {True, False}
+    if ast[0] == 'fpath':
+        return _abs_rel_union(ast[1])
+    return False
 
 
 def _paren_forms(ast):
@@ -661,7 +744,7 @@ def judge_lxml(case, rec: Recorder | None = None) -> list[Disc]:
         return [n.addr for n in ns_ if n.kind != 'document']
 
     def norm_ep(a, ctx):
-        r = im.run('1.0', render(a), ctx)
+        r = im.run('1.0', render(a), ctx, raw)
         if isinstance(r, tuple):
             return r
         if any(len(x) and isinstance(x[-1], tuple) and x[-1][0] == 'ns' for x in r):
@@ -678,9 +761,22 @@ def judge_lxml(case, rec: Recorder | None = None) -> list[Disc]:
         ast = pc['ast']
         text = render(ast)
         rctx = ctx_objs[pc['item'] % len(ctx_objs)] if pc['item'] is not None else ref.root
+        if pc['item'] is not None and pc.get('prefer') == 'misc':
+            miscs = [n for n in ctx_objs if n.kind in ('comment', 'pi')]
+            rctx = miscs[pc['item'] % len(miscs)] if miscs else rctx
+        elif pc['item'] is not None and pc.get('prefer') == 'element':
+            inner = [n for n in ctx_objs if n.kind == 'element' and n is not ref.root]
+            rctx = inner[pc['item'] % len(inner)] if inner else rctx
+        raw = bool(pc.get('raw'))
         nodes, info = im.ev.evaluate(ast, rctx)
         classes = ['lxml:path', f'lxml:{cfg.get("rootkind", "doc")}-root/{_misc_class(spec)}'] + \
             ['lxml:' + c for c in shape_classes(ast, ref, None)]
+        if rctx.kind in ('comment', 'pi') and ast[0] == 'path' and ast[1] == 0 and ast[2] and ast[2][0][1] in _LEAVING_AXES:
+            classes.append('lxml:leaves-comment-or-pi-context' + ('-raw' if raw else ''))
+        if any(p_[0] in ('dec', 'div', 'lastdiv', 'lastminusdec') for p_ in _all_preds(ast)):
+            classes.append('lxml:non-integer-numeric-predicate')
+        if _abs_rel_union(ast) and rctx is not ref.root:
+            classes.append('lxml:abs|rel-union-from-inner-context')
         hidden_doc = im.dummy and (info.doc_upward or (_has_bare_root(ast) and ast != ['path', 1, []]))
         if info.fp_from_attr_ns:
             classes.append('lxml:excluded-following/preceding-from-attr-or-ns')
